@@ -32,24 +32,26 @@ MODEL_INVS = ["PropertyOK", "NoDrift", "DeepFresh", "TypeOK"]
 
 # ------------------------------------------------------------------------------------------------ (M) + (G)
 def model_and_histories(tier):
+    """One TLC run model-checks OpHeap (2 parameter cells) AND emits the histories; a second run is the negative control of
+    the model (a deepcopy that keeps the parameter leaves must be exposed by the cell graph and by an in-place write)."""
     steps = 3 if tier == "quick" else 4
-    wd = lib.workdir("C06", "model")
-    m = lib.run_tlc("OpHeap", lib.cfg(constants={"MaxSteps": 3, "NParams": 2, "DeepMode": '"spec"'}, invariants=MODEL_INVS), wd, timeout=3000)
-    lib.require_ok(m, "OpHeap model")
-    negs = 0
-    for inv in ("DeepDisjoint", "Isolation"):
-        n = lib.run_tlc("OpHeap", lib.cfg(constants={"MaxSteps": 3, "NParams": 2, "DeepMode": '"keepleaves"'}, invariants=[inv]),
-                        lib.workdir("C06", "model_neg"), timeout=3000)
-        if n.invariant_violated != inv:
-            raise lib.MachineryError(f"negative control of the model: a deepcopy that keeps the leaves does not violate {inv} ({n.error})")
-        negs += 1
-    g = lib.run_tlc("OpHeapGen", lib.cfg(constants={"MaxSteps": steps, "NParams": 1, "DeepMode": '"spec"'}, invariants=["PropertyOK"],
+    g = lib.run_tlc("OpHeapGen", lib.cfg(constants={"MaxSteps": steps, "NParams": 2, "DeepMode": '"spec"'}, invariants=MODEL_INVS,
                                          constraints=["Emit"]), lib.workdir("C06", "gen"), timeout=3000)
-    lib.require_ok(g, "OpHeapGen")
-    hists = [j["h"] for j in g.json_lines]
+    lib.require_ok(g, "OpHeapGen / OpHeap model")
+    n = lib.run_tlc("OpHeap", lib.cfg(constants={"MaxSteps": 3, "NParams": 2, "DeepMode": '"keepleaves"'}, invariants=["NegWitness"]),
+                    lib.workdir("C06", "model_neg"), timeout=3000)
+    if n.invariant_violated != "NegWitness":
+        raise lib.MachineryError(f"negative control of the model: a deepcopy that keeps the leaves is not exposed ({n.error})")
+    seen, hists = set(), []
+    for j in g.json_lines:
+        k = json.dumps(j["h"], sort_keys=True)
+        if k not in seen:
+            seen.add(k)
+            hists.append((k, j["h"]))
+    hists = [h for _, h in sorted(hists)]                 # TLC prints in worker order: sort for determinism
     if len(hists) < 1000:
         raise lib.MachineryError(f"generator produced too few histories: {len(hists)}")
-    return m, g, hists, negs, steps
+    return g, hists, 1, steps
 
 
 # ------------------------------------------------------------------------------------------------ history selection
@@ -75,7 +77,7 @@ def choose_histories(rng, pools, inst, n_extra):
         need -= gain
         chosen.append(best)
     for _ in range(n_extra):
-        chosen.append(rng.choice(extra_pool))
+        chosen.append(rng.choice(pools["deepwrite"][key] if rng.random() < 0.7 else extra_pool))
     return chosen
 
 
@@ -96,6 +98,10 @@ def make_pools(hists, bind_in_chains):
                      and sum(1 for s in h if s["act"] == "bind") <= 1]
             extra = [h for h in ok if any(s["src"] > 1 for s in h) and (bind_in_chains or all(s["act"] != "bind" for s in h))]
             pools[(is_mp, int_w)] = (ok, cover, extra)
+            # deep copy followed by an in-place write to the copy or to its source (the isolation clause)
+            pools.setdefault("deepwrite", {})[(is_mp, int_w)] = [
+                h for h in extra if h[-1]["act"] == "mutate" and any(
+                    s["act"] == "deep" and (k + 2 == h[-1]["src"] or s["src"] == h[-1]["src"]) for k, s in enumerate(h[:-1]))]
     return pools
 
 
@@ -178,6 +184,16 @@ def replay(inst, hist, stats, texts):
         contents = [S.safe_content(root)]
         ren = Renum()
         events, info = [], []
+        tbl, tbl_ix = [], {}
+
+        def intern(c):
+            """content records are stored once per trace (compression only: TLC looks the records up and compares them)"""
+            d = _digest(c, texts)
+            k = json.dumps(d, sort_keys=True)
+            if k not in tbl_ix:
+                tbl.append(d)
+                tbl_ix[k] = len(tbl)
+            return tbl_ix[k]
         for st in hist:
             act, s, arg = st["act"], st["src"], st["arg"]
             if s > len(nodes):
@@ -226,7 +242,7 @@ def replay(inst, hist, stats, texts):
             cells = [sorted(ren(i) for i in S.cell_graph(n)) for n in nodes]
             post = list(contents)
             events.append({"act": act, "src": s, "dst": len(nodes) if new is not None else (s if act == "mutate" else 0),
-                           "pre": [_digest(c, texts) for c in pre], "post": [_digest(c, texts) for c in post],
+                           "pre": [intern(c) for c in pre], "post": [intern(c) for c in post],
                            "cells": cells, "newp": newp_tok, "eq": eq, "exc": exc, "mc": mc, "prov": [dict(p) for p in prov]})
             info.append({"act": act, "src": s, "arg": arg, "new": new, "variant": var[-1] if new is not None else None,
                          "pre_src": pre[s - 1], "post_dst": post[-1] if new is not None else None})
@@ -234,7 +250,7 @@ def replay(inst, hist, stats, texts):
             stats["act:" + act] += 1
             if exc:
                 break
-    return {"ev": events}, info
+    return {"tbl": tbl, "ev": events}, info
 
 
 # ------------------------------------------------------------------------------------------------ hand-written negative controls
@@ -268,14 +284,26 @@ def negative_traces():
                   "prov": [root, {"act": "deep", "src": 1}]}]}, "mutation-leaks"),
         ({"ev": [ev("shallow", [a], [a, _c(ifc="jax")], [[1], [1]])]}, "content:interface"),
     ]
-    return out
+    res = []
+    for tr, clause in out:
+        tbl = []
+        for e in tr["ev"]:
+            for f in ("pre", "post"):
+                ix = []
+                for c in e[f]:
+                    if c not in tbl:
+                        tbl.append(c)
+                    ix.append(tbl.index(c) + 1)
+                e[f] = ix
+        res.append(({"tbl": tbl, "ev": tr["ev"]}, clause))
+    return res
 
 
 # ------------------------------------------------------------------------------------------------ run
 def run(tier, seed):
     t0 = time.time()
     rng = random.Random(seed)
-    m, g, hists, model_negs, steps = model_and_histories(tier)
+    g, hists, model_negs, steps = model_and_histories(tier)
     t_model = time.time() - t0
     insts, dropped = S.build_space(tier, seed)
     if len(dropped) > 6 or len(insts) < 400:
@@ -303,11 +331,11 @@ def run(tier, seed):
             used_hist.add(json.dumps(h[:len(tr["ev"])]))
             traces.append(tr)
             meta.append((inst, h, info))
-            classes.add(tr["ev"][0]["pre"][0]["cls"])
+            classes.add(tr["tbl"][tr["ev"][0]["pre"][0] - 1]["cls"])
             if inst.table is not None:
                 wpos = wire_positions(inst.table["labels"])
                 for k, i in enumerate(info):
-                    if i["new"] is None or (tier == "quick" and i["src"] > 1 and (len(sem_cases) + k) % 3):
+                    if i["new"] is None:
                         continue
                     try:
                         b = encode_op(i["new"], wpos, S.M)
@@ -372,14 +400,16 @@ def run(tier, seed):
         inst, h, info = meta[ti]
         for (k, clause) in sorted(fs):
             e = traces[ti]["ev"][k]
-            cname = e["pre"][0]["cls"].rsplit(".", 1)[-1]
+            tbl = traces[ti]["tbl"]
+            cname = tbl[e["pre"][0] - 1]["cls"].rsplit(".", 1)[-1]
             actname = e["act"] if e["act"] != "mutate" else "deep"
-            key = f"{actname}:{clause}:{cname}" + (f":{e['exc']}" if clause == "raises" else "")
+            key = (f"{clause}:{cname}" if clause.split(":")[0] in ("deep", "rebind") else f"{actname}:{clause}:{cname}") + (
+                f":{e['exc']}" if clause == "raises" else "")
             per_clause[f"{actname}:{clause}"] += 1
             if key in seen:
                 continue
             seen.add(key)
-            srcc, dstc = e["pre"][e["src"] - 1], (e["post"][e["dst"] - 1] if e["dst"] else None)
+            srcc, dstc = tbl[e["pre"][e["src"] - 1] - 1], (tbl[e["post"][e["dst"] - 1] - 1] if e["dst"] else None)
 
             def full(c):
                 return None if c is None else {kk: texts.get(v, v) if isinstance(v, str) else v for kk, v in c.items()}
@@ -391,38 +421,57 @@ def run(tier, seed):
             viol.append(Violation(key=key, detail=detail,
                                   replay={"instance": inst.label, "family": inst.family, "history": h[:k + 1], "step": k + 1, "clause": clause,
                                           "source": full(srcc), "result": full(dstc), "newp": e["newp"], "qp_equal": e["eq"]}))
-    # ---- (E) exact semantics of the reproduced table operators, decided by TLC
-    neg_cases = []
-    for k in range(0, len(sem_cases), max(1, len(sem_cases) // 12)):
-        c = sem_cases[k]
+    # ---- (E) exact semantics of the reproduced table operators, decided by TLC.  Textually identical (reference, result)
+    #      pairs are sent once; results with the same reference share one case (U_ref computed once).
+    groups, order = {}, []
+    for ci, c in enumerate(sem_cases):
+        ka = json.dumps([c["n"], c["a"]], sort_keys=True)
+        kb = json.dumps(c["bs"][0]["b"], sort_keys=True)
+        if ka not in groups:
+            groups[ka] = {"n": c["n"], "a": c["a"], "bs": {}, "users": {}}
+            order.append(ka)
+        grp = groups[ka]
+        if kb not in grp["bs"]:
+            grp["bs"][kb] = c["bs"][0]
+        grp["users"].setdefault(kb, []).append(ci)
+    allc, users = [], []
+    for ka in order:
+        grp = groups[ka]
+        kbs = list(grp["bs"])
+        allc.append({"n": grp["n"], "a": grp["a"], "bs": [grp["bs"][kb] for kb in kbs]})
+        users.append([grp["users"][kb] for kb in kbs])
+    n_real_cases = len(allc)
+    for k in range(0, n_real_cases, max(1, n_real_cases // 12)):         # hand-made wrong results: first angle shifted by one lattice step
+        c = allc[k]
         if c["a"][0]["p"]:
-            neg_cases.append({"n": c["n"], "a": [dict(c["a"][0])],
-                              "bs": [{"b": [dict(c["a"][0], p=[(c["a"][0]["p"][0] + 1) % 16] + c["a"][0]["p"][1:])], "rel": "exact"}]})
-    allc = sem_cases + neg_cases
+            allc.append({"n": c["n"], "a": [dict(c["a"][0])],
+                         "bs": [{"b": [dict(c["a"][0], p=[(c["a"][0]["p"][0] + 1) % 16] + c["a"][0]["p"][1:])], "rel": "exact"}]})
     sem_stats = {"generated": 0, "distinct": 0}
-    n_sem_ok = n_sem_neg = 0
+    n_sem_ok = n_sem_neg = n_sem_tlc = 0
     if allc:
         verdicts, _, sem_stats = rel.validate("C06", allc, S.M, name="sem")
-        for (ti, si), clause in verdicts.items():
-            if ti >= len(sem_cases):
+        for (ti, si), clause in sorted(verdicts.items()):
+            if ti >= n_real_cases:
                 if clause == "ok":
                     raise lib.MachineryError("negative control of the exact-semantics comparison accepted")
                 n_sem_neg += 1
                 continue
             if clause == "overflow":
                 raise lib.MachineryError("ring coefficient overflow in CircuitEq")
-            inst, h, k, act = sem_meta[ti]
-            if clause != "ok":
+            n_sem_tlc += 1
+            for ci in users[ti][si]:
+                inst, h, k, act = sem_meta[ci]
+                if clause == "ok":
+                    n_sem_ok += 1
+                    continue
                 key = f"{act}:semantics-{clause}:{type(inst.make(0)).__name__}"
                 if key not in seen:
                     seen.add(key)
                     viol.append(Violation(key=key, detail=f"{inst.label}: history {[(s['act'], s['src'], s['arg']) for s in h[:k + 1]]}: the object produced at step "
                                                           f"{k + 1} has a different unitary than the reference record {allc[ti]['a'][0]} (TLC verdict {clause}); "
-                                                          f"encoded result {allc[ti]['bs'][0]['b'][0]}",
-                                          replay={"instance": inst.label, "history": h[:k + 1], "reference": allc[ti]["a"][0], "result": allc[ti]["bs"][0]["b"][0]}))
-            else:
-                n_sem_ok += 1
-        if neg_cases and n_sem_neg != len(neg_cases):
+                                                          f"encoded result {allc[ti]['bs'][si]['b'][0]}",
+                                          replay={"instance": inst.label, "history": h[:k + 1], "reference": allc[ti]["a"][0], "result": allc[ti]["bs"][si]["b"][0]}))
+        if n_sem_neg != len(allc) - n_real_cases or not n_sem_neg:
             raise lib.MachineryError("negative controls of the exact-semantics comparison missing")
     # ---- evidence
     n_real = len(traces) - len(negs)
@@ -432,23 +481,24 @@ def run(tier, seed):
         inst, h, info = meta[ti]
         evs = traces[ti]["ev"]
         n_events += len(evs)
-        if evs[0]["pre"][0]["params"] or "base" in texts.get(evs[0]["pre"][0]["hyper"], evs[0]["pre"][0]["hyper"]):
-            nontriv.add((evs[0]["pre"][0]["cls"], tuple((e["act"], e["src"]) for e in evs)))
+        c0 = traces[ti]["tbl"][evs[0]["pre"][0] - 1]
+        if c0["params"] or "base" in texts.get(c0["hyper"], c0["hyper"]):
+            nontriv.add((c0["cls"], tuple((e["act"], e["src"]) for e in evs)))
     allcls = S.all_concrete_classes()
     samples = []
     for ti in (0, n_real // 3, 2 * n_real // 3, n_real - 1):
         inst, h, info = meta[ti]
         samples.append({"instance": inst.label, "history": [(s["act"], s["src"], s["arg"]) for s in h[:len(traces[ti]["ev"])]],
                         "failing_clauses": [c for (_, c) in fails.get(ti, [])],
-                        "result_params": traces[ti]["ev"][-1]["post"][-1]["params"][:3]})
+                        "result_params": traces[ti]["tbl"][traces[ti]["ev"][-1]["post"][-1] - 1]["params"][:3]})
     fam = Counter(i.family for i in insts)
-    cov = {"states": m.distinct + g.distinct + r.distinct + sem_stats["distinct"],
-           "transitions": m.generated + g.generated + r.generated + sem_stats["generated"],
+    cov = {"states": g.distinct + r.distinct + sem_stats["distinct"],
+           "transitions": g.generated + r.generated + sem_stats["generated"],
            "traces_validated_against_impl": n_real, "evaluations": n_events, "distinct_nontrivial": len(nontriv),
            "rule": "non-trivial = distinct (operator class, action chain) replayed on an object that has parameters or a nested base operator; "
                    "every instance sees every action at the root plus chains / in-place writes drawn from TLC's exhaustive history set",
            "samples": samples, "exhaustive": False,
-           "model": {"module": "OpHeap", "states": m.distinct, "invariants": MODEL_INVS, "MaxSteps": 3, "NParams": 2,
+           "model": {"module": "OpHeap", "states": g.distinct, "invariants": MODEL_INVS, "MaxSteps": steps, "NParams": 2,
                      "negative_controls_of_model_rejected": model_negs},
            "histories_generated": len(hists), "history_steps": steps, "distinct_histories_replayed": len(used_hist),
            "instances": len(insts), "instances_by_family": dict(fam), "recipes_dropped": dropped,
@@ -456,7 +506,7 @@ def run(tier, seed):
            "events_by_action": {k[4:]: v for k, v in st.items() if k.startswith("act:")},
            "skipped": {k[8:]: v for k, v in st.items() if k.startswith("skipped:")}, "skip_reasons": st.get("skip_reasons", {}),
            "mutations": st["mutations"], "mutations_skipped_no_cell": st["mutate_skipped"],
-           "exact_semantics_cases_ok": n_sem_ok, "exact_semantics_unencodable": st["sem_unencodable"],
+           "exact_semantics_cases_ok": n_sem_ok, "exact_semantics_distinct_pairs_decided_by_tlc": n_sem_tlc, "exact_semantics_unencodable": st["sem_unencodable"],
            "failing_event_clauses": dict(per_clause), "model_drift": dict(drift_count),
            "negative_controls_rejected": nneg + n_sem_neg + model_negs,
            "exceptions_seen": st.get("exceptions", {}), "equal_raised": st.get("equal_raised", {}),
